@@ -201,12 +201,12 @@ func Main(args []string) int {
 
 	// vacuity: every operation must be accepted somewhere (except the one that must always fail)
 	var never []string
-	ops := []string{opDelegSmall, opDelegBig, opUndelegBig, opUndelegSmall, opDonateDeleg, opDonateRewards, opWOne, opWAll}
+	ops := []string{opDelegSmall, opDelegBig, opUndelegBig, opDonateDeleg, opDonateRewards, opWOne, opWAll}
 	if K >= 1 && boundDone >= 1 {
 		for _, op := range ops {
 			if st.Info["accepted."+op] == 0 {
 				// undelegations need a delegation first: two deviations
-				if (op == opUndelegBig || op == opUndelegSmall) && boundDone < 2 {
+				if op == opUndelegBig && boundDone < 2 {
 					continue
 				}
 				if (op == opWOne || op == opWAll) && L < 6 {
